@@ -3,8 +3,10 @@
 # Copyright (c) IPython Development Team.
 # Distributed under the terms of the Modified BSD License.
 
+import codecs
 import io
 import json
+import locale
 import os
 import sys
 
@@ -73,9 +75,21 @@ def main_merge(args):
         nbformat.write(merged, mfn)
         logger.info("Merge result written to %s", mfn)
     else:
-        # Write merged notebook to terminal
-        nbformat.write(merged, sys.stdout)
+        # Write merged notebook to terminal. A stream that is not UTF-8
+        # escapes what it cannot encode in a way that is not valid JSON
+        # (\xe9, \U0001f600), so let the JSON encoder do the escaping there
+        nbformat.write(merged, sys.stdout, ensure_ascii=not _stdout_is_utf8())
     return returncode
+
+
+def _stdout_is_utf8():
+    """Whether text written to sys.stdout ends up UTF-8 encoded"""
+    encoding = (getattr(sys.stdout, 'encoding', None) or
+                locale.getpreferredencoding() or 'utf-8')
+    try:
+        return codecs.lookup(encoding).name == 'utf-8'
+    except LookupError:
+        return False
 
 
 def _handle_agreed_deletion(base_fn, output_fn, args=None):
